@@ -160,9 +160,43 @@ func rawLocalSeen(v ssa.Value, seen map[ssa.Value]bool) bool {
 func storeIsLocal(in ssa.Instruction) bool {
 	switch x := in.(type) {
 	case *ssa.Store:
-		return rawLocal(x.Addr)
+		return rawLocal(x.Addr) && !publishedBefore(x.Addr, in)
 	case *ssa.MapUpdate:
-		return rawLocal(x.Map)
+		return rawLocal(x.Map) && !publishedBefore(x.Map, in)
+	}
+	return false
+}
+
+// publishedBefore: the address is (a field of) a local variable whose address has already been put into
+// shared storage — sp := new(); m[k] = &sp; sp.f = v — at a point that can precede this instruction:
+// the write then lands in the shared object, it is not the initialisation of a private one.
+func publishedBefore(addr ssa.Value, in ssa.Instruction) bool {
+	var al *ssa.Alloc
+	v := addr
+	for i := 0; i < 8 && al == nil; i++ {
+		switch x := v.(type) {
+		case *ssa.Alloc:
+			al = x
+		case *ssa.FieldAddr:
+			v = x.X
+		default:
+			return false
+		}
+	}
+	if al == nil || al.Referrers() == nil {
+		return false
+	}
+	for _, r := range *al.Referrers() {
+		switch x := r.(type) {
+		case *ssa.Store:
+			if x.Val == ssa.Value(al) && !rawLocal(x.Addr) && ssa.Instruction(x) != in && Reaches(x, in) {
+				return true
+			}
+		case *ssa.MapUpdate:
+			if x.Value == ssa.Value(al) && !rawLocal(x.Map) && ssa.Instruction(x) != in && Reaches(x, in) {
+				return true
+			}
+		}
 	}
 	return false
 }
